@@ -545,8 +545,15 @@ def gen_setter(rng, case, dists, valid=True):
     cls, cfg = case["cls"], case["cfg"]
     tri = case["graph"]["base"] == 3
     vv = lambda nm: c10.valid_value(rng, nm)  # noqa: E731
-    kind = rng.choice(["positional", "partial", "surplus", "keyword", "kw_subset", "kw_subset", "mixed", "global", "side",
+    kind = rng.choice(["positional", "partial", "surplus", "keyword", "kw_subset", "kw_subset", "mixed", "global", "side", "arc", "arc",
                        "unknown", "sub", "sub", "sub", "dist"])
+    if kind == "arc" and cls != "Unilateral":
+        # un-prefixed arc-level names ('TtoII_spread', 'IItoIII_micro', 'II_growth') only: in a composite they address
+        # that arc on every side / in every sub-model, and derived values (the Midline mixture) must follow
+        tails = T + L
+        kw = {t: vv(t) for t in rng.sample(tails, rng.randint(1, min(3, len(tails))))}
+        return {"op": "set", "m": rng.choice(["set_params", "set_spread_params", "set_tumor_spread_params"]), "args": [], "kwargs": kw,
+                "style": kind}
     if kind == "positional":
         return {"op": "set", "m": "set_params", "args": [vv(n) for n in sn], "kwargs": {}, "style": kind}
     if kind == "partial":
@@ -865,7 +872,7 @@ def run(ctx: Ctx, a_ok: bool):
     quick = ctx.tier == "quick"
     cfgs = configs()
     cases = []
-    n_main = 150 if quick else 1500
+    n_main = 300 if quick else 1500
     bi, mid = cfgs[:4], cfgs[4:-1]
 
     def pick(i, n_cover):
